@@ -12,17 +12,18 @@ import vlib
 from vlib import log
 
 NEG = [("MC_SioSystem_negctl_firedrops.cfg", "StoreIsLive", "pre-repair report of a firing timer (FireDropsBs)"),
-       ("MC_SioSystem_relock_faithful.cfg", "RelockScheduledUndisturbed", "named deviations Wedge / MakeOnPending=cancel break the scenario's liveness-shaped invariant"),
-       ("MC_SioSystem_relock_crash.cfg", "RelockScheduledNoDirect", "a fired timer's message waiting in the input queue is lost by a crash")]
+       ("MC_SioSystem_negctl_wedge.cfg", "RelockScheduledUndisturbed", "pre-repair service machines that keep a failed request's bindings (Wedge)"),
+       ("MC_SioSystem_negctl_makecancel.cfg", "RelockScheduledUndisturbed", "pre-repair makeTimer on a pending id (MakeOnPending = cancel)"),
+       ("MC_SioSystem_relock_crash.cfg", "RelockScheduledNoDirect", "a fired timer's message waiting in the input queue is lost by a crash (inherent)")]
 
 
-DEVIATION_CFGS = ["%s.cfg", "%s_TRUE_replace.cfg", "%s_FALSE_cancel.cfg", "%s_FALSE_replace.cfg"]
+DEVIATION_CFGS = ["%s.cfg", "%s_keep.cfg"]
 
 
 def judge_any(pid, name, module, cases, extra_files):
-    """The named deviations Wedge and MakeOnPending are what the code does today, not something a property demands: a run is
-    rejected only if it is a behaviour of the model under NO combination of them (so repairing either deviation in the code
-    raises no alarm).  FireDropsBs (sio) and EmitOnFailedWrite (mcrew) are defects and are not admitted."""
+    """Where a property leaves a choice the judge admits each choice: a makeTimer for a pending id may replace the pending timer
+    (what the code does) or be refused (the pending timer stays) - a run is rejected only if it is a behaviour of the model under
+    neither.  The pre-repair shapes (Wedge, MakeOnPending = cancel, FireDropsBs, EmitOnFailedWrite) are defects and are not admitted."""
     base = module[:-4]
     first = None
     rejected = None
@@ -61,7 +62,6 @@ def stage(pid, tier, seed, wd, rep):
         plan.append(("deep", "MC_SioSystem_6.cfg", 8))
     for cfg, inv, what in NEG:
         plan.append(("neg:" + inv, cfg, 2))
-    plan.append(("ideal", "MC_SioSystem_relock_ideal.cfg" if tier == "quick" else "MC_SioSystem_relock_ideal5.cfg", 4))
     with cf0.ThreadPoolExecutor(max_workers=len(plan)) as ex:
         results = list(ex.map(lambda t3: (t3[0], t3[1], mc(t3[1], workers=t3[2], timeout=6000)), plan))
     main_states = 0
@@ -75,9 +75,6 @@ def stage(pid, tier, seed, wd, rep):
             main_states = max(main_states, r["distinct"])
             if name == "main":
                 export_out = r["out"]
-        elif name == "ideal":
-            if not r["ok"]:
-                raise vlib.CannotRun("SioSystem.tla: RelockScheduledUndisturbed should hold on the idealised shape:\n" + r["out"][-1500:])
         else:
             inv = name[4:]
             if r["ok"] or ("Invariant %s is violated" % inv) not in r["out"]:
@@ -153,7 +150,7 @@ def stage(pid, tier, seed, wd, rep):
     # 5. the crew as siostd runs it (real Loop, Stdio couplings, JSON state file, self-firing timers, restarts from the file):
     #    only lines and the state file are observed; TLC searches for the silent Fire/Deliver steps
     io = stdio_stage(pid, tier, seed, wd, drv, rep)
-    log("  SioSystem.tla: %d states (system invariants hold; %d shapes refuted as expected); %d model behaviours + %d random runs replayed on the real crew, %d steps, %d rejected"
+    log("  SioSystem.tla: %d states (system and scenario invariants hold; %d pre-repair / inherent shapes refuted as expected); %d model behaviours + %d random runs replayed on the real crew, %d steps, %d rejected"
         % (main_states, len(NEG), len(behs), t["lines"] - len(behs), stats.get("steps", 0), len(bad)))
     st = {"system." + k: v for k, v in stats.items()}
     st.update({"system.stdio." + k: v for k, v in io["stats"].items()})
